@@ -642,6 +642,20 @@ _datetime_facade = types.ModuleType('datetime')
 _datetime_facade.__dict__.update(vars(_datetime_mod))
 _datetime_facade.datetime = _datetime  # type: ignore
 
+
+import secrets as _secrets_mod
+
+
+def _compare_digest(a: Any, b: Any) -> Any:
+    if is_sym(a) or is_sym(b):
+        return a == b          # timing-safe comparison == equality
+    return _secrets_mod.compare_digest(a, b)
+
+
+_secrets_facade = types.ModuleType('secrets')
+_secrets_facade.__dict__.update(vars(_secrets_mod))
+_secrets_facade.compare_digest = _compare_digest  # type: ignore
+
 def _import(name: str, globals: Any = None, locals: Any = None,
             fromlist: Any = (), level: int = 0) -> Any:
     if level == 0:
@@ -655,6 +669,8 @@ def _import(name: str, globals: Any = None, locals: Any = None,
             return _itertools_facade
         if name == 'datetime':
             return _datetime_facade
+        if name == 'secrets':
+            return _secrets_facade
     return builtins.__import__(name, globals, locals, fromlist, level)
 
 
